@@ -105,6 +105,30 @@ fn construct_case_cfg<K: Kern<D>, const D: usize>(cx: &mut Ctx, pts: &[Vec<i64>]
 }
 
 pub fn drive_construct(cx: &mut Ctx) {
+    // (0) wide coordinate ranges through every dedup policy / ordering, with and without statistics: a small cluster in
+    //     general position plus outliers at 2^45 / 2^50 (coordinate / tolerance beyond what a quantised key can hold).
+    //     Nothing is a duplicate, so every input vertex must be present or counted as skipped.
+    for d in 2..=3usize {
+        for i in 0..(if cx.thorough { 48 } else { 12 }) {
+            if !cx.mine() {
+                continue;
+            }
+            let mut r = Rng::new(cx.seed * 1_300_021 + (d * 1000 + i) as u64);
+            let mut pts = gp_points(&mut r, d, d + 3, max_coord(d));
+            let w: i64 = 1 << [45, 50, 43][i % 3];
+            let mut a = vec![1i64; d];
+            a[i % d] = w;
+            pts.insert(i % 3, a);
+            let mut b = vec![2i64; d];
+            b[(i + 1) % d] = -w;
+            pts.push(b);
+            let o = Opts { order: i % 4, dedup: 1 + (i / 4) % 2, simplex: (i / 2) % 2, retry: [0, 3][(i / 8) % 2] };
+            let ctor = [Ctor::WithOptionsStats, Ctor::WithOptions, Ctor::Builder][i % 3];
+            let k = (i / 3) % 2;
+            let g = GUARANTEES[i % 3];
+            dispatch!(d, k, construct_case_cfg(cx, &pts, ctor, g, o, &format!("C01 widededup D={d} i={i}")));
+        }
+    }
     // (a) exhaustive: every subset of the 3x3 grid with >= 3 points (2-D)
     let g2 = grid(2, 3);
     let mut cfg_i = cx.seed as usize;
@@ -396,7 +420,56 @@ fn near_vertex_case<K: Kern<D>, const D: usize>(cx: &mut Ctx, r: &mut Rng, idx: 
     cx.tr.s = 0;
 }
 
+/// a degenerate bootstrap prefix (the first D+1 points in one hyperplane) under every repair x check policy: the
+/// (D+1)-th insertion fails AFTER the vertex entered the Tds; whatever the policies, the failed call must leave a
+/// bootstrap state from which ordinary points can still be inserted
+fn degenerate_bootstrap_case<K: Kern<D>, const D: usize>(cx: &mut Ctx, r: &mut Rng, idx: usize) {
+    let g = GUARANTEES[idx % 3];
+    cx.start_case(format!("C02 degboot D={D} k={} g={g:?} i={idx}", K::NAME));
+    let mut dt = op_empty::<K, D>(&mut cx.tr, 0, g);
+    let rp = [DelaunayRepairPolicy::Never, DelaunayRepairPolicy::EveryInsertion, DelaunayRepairPolicy::EveryN(NonZeroUsize::new(2).unwrap())][idx % 3];
+    let cp = [DelaunayCheckPolicy::EndOnly, DelaunayCheckPolicy::EveryN(NonZeroUsize::new(1).unwrap()), DelaunayCheckPolicy::EveryN(NonZeroUsize::new(3).unwrap())][(idx / 3) % 3];
+    if !op_set_policy(&mut cx.tr, 0, &mut dt, PolicySet::Repair(rp)) || !op_set_policy(&mut cx.tr, 0, &mut dt, PolicySet::Check(cp)) {
+        return;
+    }
+    // D+2 points with last coordinate 0 (a hyperplane), then two ordinary points
+    let hi = max_coord(D);
+    let mut flat: Vec<Vec<i64>> = Vec::new();
+    while flat.len() < D + 2 {
+        let mut p: Vec<i64> = (0..D).map(|_| r.range(0, hi)).collect();
+        p[D - 1] = 0;
+        if !flat.contains(&p) {
+            flat.push(p);
+        }
+    }
+    for (i, p) in flat.iter().enumerate() {
+        let v = VIn::lattice(cx.fresh_uuid(), p.clone(), Some(i as i32));
+        if !op_insert(&mut cx.tr, 0, &mut dt, &v, (idx + i) % 2 == 0) {
+            return;
+        }
+    }
+    for t in 0..2 {
+        let mut p: Vec<i64> = (0..D).map(|_| r.range(0, hi)).collect();
+        p[D - 1] = 1 + t;
+        let v = VIn::lattice(cx.fresh_uuid(), p, Some(9));
+        if !op_insert(&mut cx.tr, 0, &mut dt, &v, t == 0) {
+            return;
+        }
+    }
+    op_verdicts(&mut cx.tr, 0, &dt, gpmax(D));
+}
+
 pub fn drive_insert(cx: &mut Ctx) {
+    for d in 2..=5usize {
+        for i in 0..(if cx.thorough { 36 } else { 18 }) {
+            let mut r = Rng::new(cx.seed * 7_000_031 + (d * 100_000 + i) as u64);
+            if !cx.mine() {
+                continue;
+            }
+            let k = (i / 9) % 2;
+            dispatch!(d, k, degenerate_bootstrap_case(cx, &mut r, i));
+        }
+    }
     for d in 2..=5usize {
         for i in 0..(if cx.thorough { 48 } else { 16 }) {
             let mut r = Rng::new(cx.seed * 7_000_019 + (d * 100_000 + i) as u64);
@@ -849,7 +922,64 @@ fn flip_case<K: Kern<D>, const D: usize>(cx: &mut Ctx, r: &mut Rng, idx: usize) 
     }
 }
 
+/// "spine" configurations: three collinear points inside a triangle fan (A, B, E on a line, C and D left and right).
+/// Flipping the edge A-B would insert the edge C-D, which already exists as an edge of the triangle E-C-D: an illegal
+/// move whose only guard is the count of existing owners of the inserted facet. Built incrementally in every
+/// insertion order (the age of the vertices decides which key is the smallest in each cell), in four orientations.
+fn spine_case<K: Kern<2>>(cx: &mut Ctx, perm: &[usize], orient: usize) {
+    cx.start_case(format!("C07 spine k={} perm={perm:?} orient={orient}", K::NAME));
+    let base: [[i64; 2]; 5] = [[0, 4], [0, 2], [0, 1], [-4, 0], [4, 0]];
+    let tf = |p: [i64; 2]| -> Vec<i64> {
+        let (x, y) = (p[0], p[1]);
+        let (x, y) = match orient % 4 { 0 => (x, y), 1 => (-y, x), 2 => (-x, -y), _ => (y, -x) };
+        vec![x + 5, y + 5]
+    };
+    let mut dt = op_empty::<K, 2>(&mut cx.tr, 0, GUARANTEES[1]);
+    for &i in perm {
+        let v = VIn::lattice(cx.fresh_uuid(), tf(base[i]), Some(i as i32));
+        if !op_insert(&mut cx.tr, 0, &mut dt, &v, false) {
+            return;
+        }
+    }
+    if dt.number_of_vertices() != 5 {
+        return;
+    }
+    // every k=2 flip of the result, each tried on the object itself and undone when it succeeded
+    let cks: Vec<CellKey> = dt.tds().cell_keys().collect();
+    for ck in cks {
+        for i in 0..3u8 {
+            if !dt.tds().contains_cell(ck) {
+                break;
+            }
+            let mut probe = dt.clone();
+            crate::ops2::op_clone(&mut cx.tr, 0, 1, &dt);
+            let out = op_flip(&mut cx.tr, 1, &mut probe, &FlipArg::K2(ck, i), 0, "spine");
+            if out.panicked {
+                return;
+            }
+        }
+    }
+}
+
 pub fn drive_flips(cx: &mut Ctx) {
+    {
+        let mut r = Rng::new(cx.seed * 9_000_041);
+        let mut perms = crate::pure::permutations(5, if cx.thorough { 120 } else { 30 }, &mut r);
+        perms.insert(0, vec![2, 0, 1, 3, 4]); // E first (the oldest vertex)
+        perms.insert(1, vec![0, 1, 3, 4, 2]); // E last
+        for (n, p) in perms.iter().enumerate() {
+            for orient in 0..4 {
+                if !cx.mine() {
+                    continue;
+                }
+                if (n + orient) % 2 == 0 {
+                    spine_case::<FastKernel<f64>>(cx, p, orient);
+                } else {
+                    spine_case::<RobustKernel<f64>>(cx, p, orient);
+                }
+            }
+        }
+    }
     for d in 2..=5usize {
         // D = 4 gets more cases: configurations in which the simplex an inverse move would insert
         // already exists far from the flipped star only arise there within short walks
